@@ -205,6 +205,65 @@ Proof.
 Qed.
 Print Assumptions C10_convert_preserves_shape_zooms.
 
+(* the shape clause for EVERY shape, the FreeSurfer conventions of NIfTI-1 included (large vectors
+   stored as dim[1] = -1 with the length in glmin; 163842 stored as 27307 x 1 x 6): whatever
+   get_data_shape returns on the source is what it returns on the converted header.  Excluded, for
+   a NIfTI-1 destination only, are the two shapes NIfTI-1 cannot tell from a convention:
+   (-1, 1, 1, ...) and (27307, 1, 6, ...) - they read back as the convention's meaning. *)
+Theorem C10_convert_preserves_shape_any : forall src dst h h' shape, analyze_family dst = true ->
+  from_header src dst false h = COk h' -> get_shape src h = COk shape -> shape <> [] -> readable dst shape ->
+  get_shape dst h' = COk shape.
+Proof. exact convert_preserves_shape_any. Qed.
+Print Assumptions C10_convert_preserves_shape_any.
+
+(* conversion with check=True: from_header(check=False) followed by check_fix, refused when a report
+   reaches level 40.  Everything the battery does not repair (every field but sizeof_hdr, bitpix, pixdim,
+   vox_offset, qform_code, sform_code, eol_check, version) is as after the unchecked conversion, hence the
+   same-named fields, the datatype code and the shape are preserved; pixdim (zooms, qfac) may be
+   repaired by _chk_pixdims / _chk_qfac and is covered by the C10_fix_* theorems instead *)
+Theorem C10_convert_check_preserves : forall src dst h h',
+  from_header src dst true h = COk h' -> hdr_fits (layout_of src) h = true ->
+  (exists h0 rs, from_header src dst false h = COk h0 /\ check_hdr dst true h0 = Some (h', rs)
+     /\ existsb (fun r : report => 40 <=? fst (fst r)) rs = false)
+  /\ (forall i fs fd, find_field i (layout_of src) = Some fs -> find_field i (layout_of dst) = Some fd ->
+       fwidth fs = fwidth fd -> fkind fs = fkind fd -> memZ i rederived = false -> memZ i repaired_fields = false ->
+       getf i h' = getf i h)
+  /\ (analyze_family dst = true -> find_field f_datatype (layout_of src) <> None ->
+      sval 2 (getf f_datatype h') = sval 2 (getf f_datatype h))
+  /\ (forall shape, analyze_family dst = true -> get_shape src h = COk shape -> plain_shape shape ->
+      get_shape dst h' = COk shape).
+Proof.
+  intros src dst h h' H Hfit. destruct (from_header_check_split src dst h h' H) as (h0 & rs & H0 & C & X).
+  split; [exists h0, rs; repeat split; assumption|]. split; [|split].
+  - intros i fs fd Es Ed Ew Ek Hre Hrp. rewrite (check_hdr_other dst true h0 h' rs i C Hrp).
+    now apply (convert_preserves_field src dst h h0 i fs fd).
+  - intros Hf Hs. rewrite (check_hdr_other dst true h0 h' rs f_datatype C eq_refl).
+    now apply (convert_preserves_dtype src dst h h0).
+  - intros shape Hf Hs Hp.
+    rewrite (get_shape_ext dst h' h0 (check_hdr_other dst true h0 h' rs f_dim C eq_refl)
+                                    (check_hdr_other dst true h0 h' rs f_glmin C eq_refl)).
+    now apply (convert_preserves_shape src dst h h0 shape).
+Qed.
+Print Assumptions C10_convert_check_preserves.
+
+(* copies are independent of the original.  The mutable parts of a header object (struct-array
+   buffer, extension list) are store locations; copy() / same-class from_header / image construction
+   allocate fresh ones with the same contents.  For every store, every valid header reference and
+   EVERY sequence of mutations applied through the original (true) or through the copy (false):
+   each of the two shows exactly the mutations made through itself, never the other's; and the
+   copy's ids differ from those of every object that existed before *)
+Theorem C10_copy_independent : forall s r, ref_ok s r ->
+  let (s', r') := copy_ref s r in
+  (r_buf r' <> r_buf r /\ r_exts r' <> r_exts r /\ view s' r' = view s r
+   /\ forall q, ref_ok s q -> view s' q = view s q /\ r_buf r' <> r_buf q /\ r_exts r' <> r_exts q)
+  /\ forall ms, view (mutate_all s' ms r r') r = apply_own (view s r) true ms
+              /\ view (mutate_all s' ms r r') r' = apply_own (view s r) false ms.
+Proof.
+  intros s r Hok. pose proof (copy_fresh s r Hok) as F. pose proof (fun ms => copy_independent s r ms Hok) as I.
+  destruct (copy_ref s r) as [s' r']. destruct F as (A & B & _ & _ & C & D). split; [split; [exact A|split; [exact B|split; [exact C|exact D]]]|exact I].
+Qed.
+Print Assumptions C10_copy_independent.
+
 (* non-vacuity: a populated big-endian NIfTI-1 header with three seeded defects (sizeof_hdr,
    bitpix, negative pixdim) is repaired, the repair is stable, and its byte order is detected *)
 Definition nv_hdr : hdr :=
